@@ -52,8 +52,10 @@ def gen(rng, idx, tier, seed):
         dts = ['f4', 'f8', 'i2', 'i4']
         if fmt == 'NETCDF4' or rng.random() < 0.1:
             dts = dts + ['i8', 'u1']
-        fs = {'core': gen_core.gen_filespec(rng, dtypes=dts, allow_char=True,
-                                            allow_unlimited=True)}
+        fs = {'core': gen_core.gen_filespec(
+            rng, dtypes=dts, allow_char=True, allow_unlimited=True,
+            # the netCDF-4 model allows several unlimited dimensions
+            second_unlimited=(fmt == 'NETCDF4' and idx % 8 == 3))}
     return {'file': fs, 'format': fmt,
             'complevel': int(rng.choice([0, 0, 4])),
             'via': str(rng.choice(['save', 'save', 'pncwrite', 'pncgen'])),
